@@ -126,6 +126,25 @@ func runC12Stream(rc *RunCtx) {
 		j := jitter(G)
 		simrt.GoNamed(fmt.Sprintf("closer-%d", i), func() { closer(i, j) })
 	}
+	// Re-acquisition racing with the closes (possibly with the full release).
+	stamp, lateAt := 0, 0
+	connAt := map[int]int{}
+	if G.Draw(3) == 0 {
+		j := jitter(G)
+		simrt.GoNamed("late-acquirer", func() {
+			j()
+			ln, err := m.ListenStream(c12Addr)
+			if err != nil {
+				rc.Failf("reacquire-failed", "ListenStream(%s) racing with closes of the other handles failed: %v", c12Addr, err)
+				return
+			}
+			stamp++
+			lateAt = stamp
+			hs = append(hs, &handle{ln: ln})
+			rc.Probe("reacquire_during_closes")
+			acceptor(len(hs) - 1)
+		})
+	}
 	type cl struct {
 		conn    *simnet.TCPConn
 		err     error
@@ -138,6 +157,8 @@ func runC12Stream(rc *RunCtx) {
 		cls[k] = &cl{}
 		simrt.GoNamed(fmt.Sprintf("connector-%d", k), func() {
 			j()
+			stamp++
+			connAt[k] = stamp
 			c, err := w.Connect(&net.TCPAddr{IP: net.IPv4(192, 0, 2, byte(10+k)).To4(), Port: 5000 + k}, c12IP, 9000)
 			cls[k].conn, cls[k].err = c, err
 			if err != nil {
@@ -168,6 +189,12 @@ func runC12Stream(rc *RunCtx) {
 		}
 	}
 	keeperAccepting := keeper >= 0 && !hs[keeper].acceptorEnd
+	lateOnly := false
+	if !keeperAccepting && len(hs) > nH && !hs[len(hs)-1].acceptorEnd {
+		keeperAccepting = true // the late handle accepts to the end
+		keeper = len(hs) - 1
+		lateOnly = true
+	}
 	open := 0
 	for _, h := range hs {
 		if !h.closeRet {
@@ -182,6 +209,9 @@ func runC12Stream(rc *RunCtx) {
 				continue
 			}
 			id := c.conn.Rec.ID
+			if lateOnly && connAt[k] < lateAt {
+				continue // arrived while possibly no handle was open (before the re-acquisition)
+			}
 			if len(delivered[id]) == 0 {
 				rc.Failf("lost-connection", "connection %d (connector %d) completed but no handle received it although handle %d kept accepting and the system is idle; connector sees %q",
 					id, k, keeper, c.outcome)
@@ -342,6 +372,24 @@ func runC12Packet(rc *RunCtx) {
 		j := jitter(G)
 		simrt.GoNamed(fmt.Sprintf("closer-%d", i), func() { closer(i, j) })
 	}
+	stamp, lateAt := 0, 0
+	sentAt := map[int]int{}
+	if G.Draw(3) == 0 {
+		j := jitter(G)
+		simrt.GoNamed("late-acquirer", func() {
+			j()
+			pc, err := m.ListenPacket(c12Addr)
+			if err != nil {
+				rc.Failf("reacquire-failed", "ListenPacket(%s) racing with closes of the other handles failed: %v", c12Addr, err)
+				return
+			}
+			stamp++
+			lateAt = stamp
+			hs = append(hs, &handle{pc: pc})
+			rc.Probe("reacquire_during_closes")
+			reader(len(hs) - 1)
+		})
+	}
 	sent := make([]*simnet.DgramRec, nDg)
 	client, _ := w.BindUDP(&net.UDPAddr{IP: net.IPv4(192, 0, 2, 9).To4(), Port: 7000})
 	for k := 0; k < nDg; k++ {
@@ -350,6 +398,8 @@ func runC12Packet(rc *RunCtx) {
 		simrt.GoNamed(fmt.Sprintf("sender-%d", k), func() {
 			j()
 			before := len(w.Dgrams)
+			stamp++
+			sentAt[k] = stamp
 			client.WriteToUDP([]byte(fmt.Sprintf("dg-%02d", k)), &net.UDPAddr{IP: c12IP, Port: 9000})
 			for _, r := range w.Dgrams[before:] {
 				if string(r.Payload) == fmt.Sprintf("dg-%02d", k) {
@@ -376,6 +426,12 @@ func runC12Packet(rc *RunCtx) {
 		}
 	}
 	keeperReading := keeper >= 0 && !hs[keeper].readerEnd
+	lateOnly := false
+	if !keeperReading && len(hs) > nH && !hs[len(hs)-1].readerEnd {
+		keeperReading = true
+		keeper = len(hs) - 1
+		lateOnly = true
+	}
 	open := 0
 	for _, h := range hs {
 		if !h.closeRet {
@@ -387,6 +443,9 @@ func runC12Packet(rc *RunCtx) {
 		rc.Nontrivial = true
 		for k, r := range sent {
 			id := fmt.Sprintf("dg-%02d", k)
+			if lateOnly && sentAt[k] < lateAt {
+				continue // sent while possibly no handle was open
+			}
 			if r != nil && r.Delivered > 0 && len(delivered[id]) == 0 {
 				rc.Failf("lost-datagram", "datagram %s reached the shared socket but no handle received it although handle %d kept reading and the system is idle", id, keeper)
 			}
